@@ -13,7 +13,7 @@ from ..prng import Rng
 
 ID = "C19"
 LEVEL = "exploration"
-RUNS = {"quick": 2500, "thorough": 20000}
+RUNS = {"quick": 3000, "thorough": 20000}
 RUN_ALARM = 600
 RULE = ("valid traces from the simulated machine are corrupted without restraint by the storage layer (1-4 faults per trace): size nibble and "
         "jumbo flag edits, jumbo size set to boundary values (0, 1, 3, remaining-1, remaining, remaining+1, 2^31+-1, 2^32-16, 2^32-1), payloads "
